@@ -589,9 +589,29 @@ func linkLoopReachesLevelZero(c *Ctx, r *Report, rule string) {
 		if !writesEntry {
 			continue
 		}
+		// (the per-level body may have been moved into a method that runs the beam itself)
+		var runsBeam func(g *ssa.Function, d int) bool
+		runsBeam = func(g *ssa.Function, d int) bool {
+			if g == nil || d > 2 {
+				return false
+			}
+			if isBeam(g) {
+				return true
+			}
+			if !modLocal(g) || len(g.Blocks) == 0 {
+				return false
+			}
+			hit := false
+			eachInstr(g, func(z ssa.Instruction) {
+				if cc := asCall(z); cc != nil && !hit && runsBeam(cc.StaticCallee(), d+1) {
+					hit = true
+				}
+			})
+			return hit
+		}
 		eachInstr(f, func(i ssa.Instruction) {
 			cl, ok := i.(*ssa.Call)
-			if !ok || !isBeam(cl.Call.StaticCallee()) || !inCycle(f, cl) {
+			if !ok || !runsBeam(cl.Call.StaticCallee(), 0) || !inCycle(f, cl) {
 				return
 			}
 			// the level argument: an integer φ stepping by -1
